@@ -19,12 +19,13 @@ type Session struct {
 	out      *bufio.Reader
 	declared map[string]bool
 	dead     bool
+	wall     time.Duration
 	Queries  int
 	Seconds  float64
 }
 
 func NewSession(timeoutMs int) *Session {
-	s := &Session{declared: map[string]bool{}}
+	s := &Session{declared: map[string]bool{}, wall: time.Duration(timeoutMs)*time.Millisecond + 5*time.Second}
 	s.cmd = exec.Command("z3", "-in")
 	var err error
 	s.in, err = s.cmd.StdinPipe()
@@ -113,7 +114,30 @@ func (s *Session) Check(asserts []*Term) Result {
 		s.dead = true
 		return Unknown
 	}
-	line, err := s.out.ReadString('\n')
+	// watchdog: z3's :timeout does not interrupt every tactic; a session that stays silent is killed
+	type rd struct {
+		line string
+		err  error
+	}
+	ch := make(chan rd, 1)
+	go func() {
+		l, e := s.out.ReadString('\n')
+		ch <- rd{l, e}
+	}()
+	var line string
+	var err error
+	select {
+	case r := <-ch:
+		line, err = r.line, r.err
+	case <-time.After(s.wall):
+		s.dead = true
+		if s.cmd.Process != nil {
+			_ = s.cmd.Process.Kill()
+		}
+		s.Queries++
+		s.Seconds += time.Since(t0).Seconds()
+		return Unknown
+	}
 	s.Queries++
 	s.Seconds += time.Since(t0).Seconds()
 	if err != nil {
@@ -132,3 +156,6 @@ func (s *Session) Check(asserts []*Term) Result {
 	s.dead = true
 	return Unknown
 }
+
+// Dead reports whether the session can no longer be used (killed by the watchdog or failed).
+func (s *Session) Dead() bool { return s.dead }
